@@ -17,7 +17,7 @@ def multisub_standin(rep):
         ob.replay = dict(confirmed=True, inputs=dict(multisub_case=first[0]), violated=first[1]); rep.add(ob)
 
 def run(rep):
-    gc.small_carriers(rep, PROP); gc.insert_obligations(rep, PROP); gc.performer_obligations(rep, PROP); gc.names_obligations(rep, PROP); gc.signature_obligations(rep, PROP)
+    gc.small_carriers(rep, PROP); gc.insert_obligations(rep, PROP); gc.performer_obligations(rep, PROP); gc.names_obligations(rep, PROP); gc.signature_obligations(rep, PROP); gc.tensorinfo_obligations(rep, PROP)
     multisub_standin(rep)
     gc.canaries(rep); gc.performer_canaries(rep)
     rep.assume('subgraph object graphs are disjoint (no operator/tensor/list object shared between two subgraphs): true of models parsed by the flatbuffer object API')
